@@ -103,7 +103,8 @@ def run_timelines(ctx, scripts):
         j = json.load(open(o))
         n, bad = judge_timeline(j)
         judged += n
-        if not j["daemon_alive_at_end"]:
+        if not j["daemon_alive_at_end"] and not (isinstance(sc, dict) and sc.get("obstacle_until_s") is not None and not j["samples"]):
+            # (on a location that cannot be used a daemon may give up at once, having published nothing)
             bad.append("the daemon died during the run")
         for b in bad[:3]:
             rp = os.path.join(ctx.replay_dir, "C13-timeline-%d.json" % len(viol))
@@ -116,5 +117,5 @@ def run_timelines(ctx, scripts):
             if s != prev:
                 changes.append([t, s])
                 prev = s
-        samples.append({"script": sc, "status_changes": changes, "chronyd_requests": j["chronyd_requests"]})
+        samples.append({"script": sc, "status_changes": changes, "chronyd_requests": j["chronyd_requests"], "daemon_alive_at_end": j["daemon_alive_at_end"], "daemon_exit_code": j.get("daemon_exit_code")})
     return judged, viol, samples, None
